@@ -39,7 +39,9 @@ REQUIREMENTS
 5. Write a demonstration {w}/demo_{pid}.py (a small standalone program, using the shim if it needs the service) that exits 0 on the ORIGINAL code and exits non-zero (with a clear message) WITH your change. Verify both yourself with a patch file: `git diff > {w}.patch; git checkout -- .; <run demo>; git apply {w}.patch; <run demo>`. NEVER use `git stash` (the stash is shared between worktrees and other people are working in sibling worktrees).
 6. Leave the worktree with your change applied (uncommitted), and write {w}/seed_meta.json with keys: property, files_changed, what_the_change_does, what_it_needs_to_manifest, demo_command, tests_command_run_and_result.
 
-Report back: the diff (git diff), the demo command, and a two-line description. Be efficient: read only the code you need (the property mentions what it is about; grep for it).'''
+7. SIDE REMARKS (valuable): if, while reading or experimenting, you notice behaviour of the UNCHANGED code that itself contradicts the property (a concrete input, what you observed, what the property demands), report it at the end under a heading 'UNCHANGED-TREE REMARKS', separately from your seeded change. Do not go hunting for long; just do not lose what you stumble on.
+
+Report back: the diff (git diff), the demo command, a two-line description, and the UNCHANGED-TREE REMARKS (or 'none'). Be efficient: read only the code you need (the property mentions what it is about; grep for it).'''
   open('/tmp/vzshim/prompt%d_%s.txt' % (n, pid), 'w').write(txt)
   if not os.path.isdir(w):
     subprocess.run(['git', '-C', '/repo', 'worktree', 'add', '-f', '--detach', w, 'HEAD'], check=True, capture_output=True)
